@@ -6,7 +6,9 @@
 (*                                                                         *)
 (* Directories: 1 = the target root (root namespace "a"), 2 = a lookup     *)
 (* root "b", 3 = a second lookup directory that also provides root         *)
-(* namespace "a" (allowed by default).  A definition is                    *)
+(* namespace "a" (allowed by default); 5 = the lookup root "b" again, the  *)
+(* file spelled with the legacy suffix / a port-ID prefix, so that one     *)
+(* directory holds two files of one name and version.  A definition is     *)
 (*   [dir, name, maj, min, refs, body]                                     *)
 (* whose text is: one field per reference (line k refers refs[k]), then    *)
 (* an optional body line (@print / failing @assert / garbage), then        *)
@@ -39,7 +41,7 @@ CONSTANTS MaxDefs,        \* number of definitions in a configuration
 VARIABLES ph, case, out
 vars == <<ph, case, out>>
 
-NsOf(dir) == IF dir = 2 THEN "b" ELSE "a"
+NsOf(dir) == IF dir \in {2, 5} THEN "b" ELSE "a"
 LowerOf(n) == CASE n = "X" -> "x" [] n = "Y" -> "y" [] n = "Z" -> "z" [] OTHER -> n      \* "a" is lower case already
 Id(d) == [dir |-> d.dir, name |-> d.name, maj |-> d.maj, min |-> d.min]
 SameNV(a, b) == NsOf(a.dir) = NsOf(b.dir) /\ a.name = b.name /\ a.maj = b.maj /\ a.min = b.min
@@ -154,7 +156,7 @@ Result(c) ==
 (* Enumeration of configurations *)
 Vers == IF Rich THEN { <<0, 1>>, <<0, 2>> } ELSE { <<0, 1>> }
 IdPool == { [dir |-> d, name |-> n, maj |-> v[1], min |-> v[2]] : d \in DirSet, n \in {"X", "Y"}, v \in Vers }
-          \cup { [dir |-> d, name |-> "X", maj |-> 0, min |-> 2] : d \in DirSet \cap {1, 2} }
+          \cup { [dir |-> d, name |-> "X", maj |-> 0, min |-> 2] : d \in DirSet \cap {1, 2, 5} }
           \cup (IF SelfNamed THEN { [dir |-> 1, name |-> "a", maj |-> 0, min |-> 1] } ELSE {})
 AbsRef(i) == [ns |-> NsOf(i.dir), name |-> i.name, maj |-> i.maj, min |-> i.min]
 CaseRef(j) == [ns |-> NsOf(j.dir), name |-> LowerOf(j.name), maj |-> j.maj, min |-> j.min]
